@@ -68,12 +68,11 @@ var KnownIssues = map[string]bool{
 	"attr-mp-reach-no-nexthop":   true,
 	"attr-prefix-sid-info-flags": true,
 
-	"attr-ls-zero-value-dropped":         true,
-	"attr-ls-igp-metric-length":          true,
-	"attr-ls-adjacency-sid-fields":       true,
-	"attr-ls-local-router-id-duplicated": true,
-	"attr-ls-prefix-sid-dropped":         true,
-	"attr-ls-flex-algo-dropped":          true,
+	"attr-ls-zero-value-dropped":   true,
+	"attr-ls-igp-metric-length":    true,
+	"attr-ls-adjacency-sid-fields": true,
+	"attr-ls-prefix-sid-dropped":   true,
+	"attr-ls-fad-subtlv-dropped":   true,
 }
 
 // c18Fixed lists the former KnownIssues keys that were repaired in gobgp (key -> subject of the
@@ -95,6 +94,9 @@ var c18Fixed = map[string]string{
 	// repaired in pkg/packet/bgp by the codec triage (C04): the API -> native direction uses these constructors
 	"attr-ls-ctor-length":             "fix: NewLsTLVLocalIPv6RouterID builds a TLV that cannot be serialised (and the three like it: RemoteIPv6RouterID, SrCapabilities, SrLocalBlock)",
 	"attr-ls-peer-adjacency-sid-type": "fix: NewLsTLVPeerAdjacencySID builds an Adjacency SID TLV",
+	// repaired in pkg/packet/bgp (bgp.NewLsAttributeTLVs) by the second triage of the C18 keys rooted in the codec
+	"attr-ls-local-router-id-duplicated": "fix: NewLsAttributeTLVs emits the Router-ID of Local Node TLV once",
+	"attr-ls-flex-algo-dropped":          "fix: NewLsAttributeTLVs builds the Flexible Algorithm TLVs",
 }
 
 // c18KnownNotes documents each key of KnownIssues and of c18Fixed (as it was before the fix): what
@@ -154,7 +156,9 @@ var c18KnownNotes = map[string]string{
 	"attr-ls-opaque-prefix-attr-dropped": "BGP-LS Opaque Prefix Attribute TLV: UnmarshalLsAttribute only kept prefix.opaque when igp_flags was present, and bgp.NewLsTLVOpaquePrefixAttr set Length 0 " +
 		"so that the TLV did not serialise for a non-empty value (an empty value is still dropped: attr-ls-zero-value-dropped).",
 	"attr-ls-flex-algo-dropped": "BGP-LS Flexible Algorithm Definition / Flex-Algo Prefix Metric TLVs: converted to flex_algo_defs / fad_prefix_metrics and back into LsAttribute, " +
-		"but bgp.NewLsAttributeTLVs builds no TLV from FlexAlgoDefs / FadPrefixMetrics; the unsupported / unknown sub-TLVs of a FAD have no API field at all.",
+		"but bgp.NewLsAttributeTLVs built no TLV from FlexAlgoDefs / FadPrefixMetrics (the sub-TLVs without API field are attr-ls-fad-subtlv-dropped).",
+	"attr-ls-fad-subtlv-dropped": "BGP-LS Flexible Algorithm Definition TLV with a Flex-Algorithm Unsupported sub-TLV (1046) or a sub-TLV of an unknown type (both kept by the decoder in " +
+		"LsTLVFlexAlgoDef.Unsupported / .Unknown): bgp.LsAttributeFlexAlgoDef (PathAttributeLs.Extract) and api.LsAttributeFlexAlgoDef have no field for them, the sub-TLV is lost.",
 }
 
 func init() {
@@ -1049,10 +1053,6 @@ func c18LsTLVShapes(t bgp.LsTLVInterface) (keys []string) {
 		if v.Flags != 0 || v.Weight != 0 || v.Length != 7 {
 			keys = append(keys, "attr-ls-adjacency-sid-fields")
 		}
-	case *bgp.LsTLVLocalIPv4RouterID:
-		keys = append(keys, "attr-ls-local-router-id-duplicated")
-	case *bgp.LsTLVLocalIPv6RouterID:
-		keys = append(keys, "attr-ls-local-router-id-duplicated")
 	case *bgp.LsTLVPrefixSID:
 		zero(v.SID == 0)
 		if v.Flags != 0 || v.Algorithm != 0 || v.Length != 8 {
@@ -1060,8 +1060,10 @@ func c18LsTLVShapes(t bgp.LsTLVInterface) (keys []string) {
 		}
 	case *bgp.LsTLVOpaquePrefixAttr:
 		zero(len(v.Attr) == 0)
-	case *bgp.LsTLVFlexAlgoDef, *bgp.LsTLVFADPrefixMetric:
-		keys = append(keys, "attr-ls-flex-algo-dropped")
+	case *bgp.LsTLVFlexAlgoDef:
+		if v.Unsupported != nil || len(v.Unknown) > 0 {
+			keys = append(keys, "attr-ls-fad-subtlv-dropped")
+		}
 	}
 	return keys
 }
@@ -1302,7 +1304,16 @@ var c18Probes = map[string]c18Probe{
 		return c18LsAttrOf(t)
 	}},
 	"attr-ls-flex-algo-dropped": {test: "C18_attr", attr: func() bgp.PathAttributeInterface {
-		return c18LsAttrOf(&bgp.LsTLVFADPrefixMetric{LsTLV: bgp.LsTLV{Type: bgp.LS_TLV_FAD_PREFIX_METRIC, Length: 8}, Algorithm: 128, Metric: 10})
+		fad := &bgp.LsTLVFlexAlgoDef{LsTLV: bgp.LsTLV{Type: bgp.LS_TLV_FLEX_ALGO_DEF}, Algorithm: 128, MetricType: 1, Priority: 100,
+			ExcludeAny: []uint32{1}, Flags: []byte{0x80, 0, 0, 0}, ExcludeSRLG: []uint32{7, 8}}
+		_, _ = fad.Serialize() // sets the length
+		return c18LsAttrOf(fad, &bgp.LsTLVFADPrefixMetric{LsTLV: bgp.LsTLV{Type: bgp.LS_TLV_FAD_PREFIX_METRIC, Length: 8}, Algorithm: 128, Metric: 10})
+	}},
+	"attr-ls-fad-subtlv-dropped": {test: "C18_attr", attr: func() bgp.PathAttributeInterface {
+		fad := &bgp.LsTLVFlexAlgoDef{LsTLV: bgp.LsTLV{Type: bgp.LS_TLV_FLEX_ALGO_DEF}, Algorithm: 128,
+			Unsupported: &bgp.LsTLVFADUnsupported{ProtocolID: 2, SubTLVTypes: []uint16{1047}}}
+		_, _ = fad.Serialize() // sets the length
+		return c18LsAttrOf(fad)
 	}},
 }
 
